@@ -104,7 +104,9 @@ func boxFrame(holes int, delta float64) *model3d.Mesh {
 
 func pickGen3(c *hlib.Ctx) mesh3 {
 	org := model3d.XYZ(dy(c, 2, 2), dy(c, 2, 2), dy(c, 2, 2))
-	switch c.Rng.Intn(13) {
+	switch c.Rng.Intn(14) {
+	case 13:
+		return cyclicPrism(c)
 	case 0:
 		return mesh3{tetrahedron(org, float64(1+c.Rng.Intn(3))/2), "tetra", true}
 	case 1:
@@ -255,7 +257,10 @@ func starPolygon(c *hlib.Ctx, o model2d.Coord, n int) []model2d.Coord {
 
 func pickGen2(c *hlib.Ctx) mesh2 {
 	o := model2d.XY(dy(c, 2, 2), dy(c, 2, 2))
-	switch c.Rng.Intn(9) {
+	switch c.Rng.Intn(10) {
+	case 9:
+		g, _ := arcOutline(c)
+		return g
 	case 0, 1, 2:
 		var k [4]int
 		for i := range k {
